@@ -1,0 +1,12 @@
+//go:build verif
+
+package main
+
+// Contracts for the verification machinery in /verif (comment-only file).
+
+// C13: the template data is built from the query parameters one key at a time;
+// the resulting map does not depend on the order in which they are visited.
+//@ func handler
+//@   props C13
+//@   nosafety
+//@   modifies *
